@@ -163,12 +163,50 @@ def run(ctx):
                     bad.setdefault("mutation:prox." + name, ("prox %s modified its input or an array it was built from" % name, {"prox": name, "layout": tag}))
                 if not np.array_equal(o1, o2):
                     bad.setdefault("determinism:prox." + name, ("prox %s not deterministic" % name, {"prox": name}))
+    new_static = static_scan(ctx)
+    ctx.obligation("static:in-place writes through parameter aliases match the reviewed baseline", not new_static)
+    if new_static and not any(k.startswith("mutation") for k in bad):
+        r = new_static[0]
+        bad["static:%s:%s" % (r["file"], r["function"])] = (
+            "new in-place write through a parameter alias in %s:%s line %d (`%s`); the snapshot sweep found no mutated argument"
+            % (r["file"], r["function"], r["line"], r["code"]), {"static_reports": new_static, "found_input": False})
     ctx.obligation("sweep:no public function / prox mutates its arguments (%d calls)" % nfun, not any(k.startswith("mutation") for k in bad))
     ctx.obligation("sweep:functions deterministic and total on valid input", not any(not k.startswith("mutation") for k in bad))
     for k, (what, rep) in bad.items():
-        ctx.violation("C02: " + what, dict(rep, kind="oracle", facet=k), signature="C02:" + k)
+        ctx.violation("C02: " + what, dict(rep, kind="oracle", facet=k), signature="C02:" + k,
+                      found_input=rep.get("found_input", True))
     ctx.validated_only.append("non-mutation (aliasing / in-place updates) is decided dynamically by byte snapshots, not by a theorem")
     ctx.proved.append("linearity of every Conj/+/composition tree over any commutative *-ring; linearity of the re-indexing / gather / finite-sum leaf families")
+
+
+# reviewed in-place writes through a parameter of the pinned tree: documented output parameters of private helpers / kernels,
+# and one false positive of the view heuristic (an integer taken from a shape list)
+STATIC_BASELINE = {
+    ("sigpy/fourier.py", "_apodize", "input"),
+    ("sigpy/block.py", "_array_to_blocks1", "output"), ("sigpy/block.py", "_array_to_blocks2", "output"),
+    ("sigpy/block.py", "_array_to_blocks3", "output"), ("sigpy/block.py", "_blocks_to_array1", "output"),
+    ("sigpy/block.py", "_blocks_to_array2", "output"), ("sigpy/block.py", "_blocks_to_array3", "output"),
+    ("sigpy/linop.py", "_hstack_params", "shapes"), ("sigpy/linop.py", "_vstack_params", "shapes"),
+    ("sigpy/mri/app.py", "EspiritCalib._output", "self.mps"),       # the app's own result buffer
+}
+
+
+def static_scan(ctx):
+    """support tool: new in-place writes through parameter aliases (tools/alias_scan.py) are leads for the sweep"""
+    import re
+    from tools import alias_scan
+    new = []
+    try:
+        reports = alias_scan.scan_repo(core.REPO)
+    except SyntaxError as e:
+        ctx.notes.append("alias scan: source does not parse: %s" % e)
+        return [{"file": "?", "function": "?", "what": "source does not parse", "code": str(e), "line": 0}]
+    for r in reports:
+        for root in re.findall(r"'([^']+)'", r["what"]):
+            if (r["file"], r["function"].split(".")[-1] if False else r["function"], root) not in STATIC_BASELINE:
+                new.append(r)
+    ctx.coverage["static_alias_reports"] = len(reports)
+    return new
 
 
 def flat(o):
